@@ -3,6 +3,7 @@ package sim
 import (
 	"encoding/hex"
 	"fmt"
+	"time"
 
 	"github.com/elementsproject/peerswap/messages"
 	"github.com/elementsproject/peerswap/policy"
@@ -239,6 +240,36 @@ func (l *lnWrap) RecoverClaimPayment(payreq string) (string, error) {
 	}
 	n := l.inc.node
 	w := n.w
+	// like waitsendpay / TrackPaymentV2 the call blocks while the payment is in flight
+	announced := false
+	for {
+		w.mu.Lock()
+		pend := false
+		if inv := w.LN.Invoices[payreq]; inv != nil {
+			for _, a := range w.LN.attemptsLocked(n.ID, inv.Hash) {
+				if a.State == "pending" {
+					pend = true
+				}
+				if a.State == "settled" {
+					pend = false
+					break
+				}
+			}
+		}
+		if pend && !announced {
+			bt, lt := l.tips()
+			w.emitLocked(n.Name, l.inc.N, "ln.recover.wait", EvPay{Op: "recover", Payreq: payreq, BtcTip: bt, LbtcTip: lt})
+			announced = true
+		}
+		w.mu.Unlock()
+		if !pend {
+			break
+		}
+		if l.inc.dead.Load() {
+			parkForever()
+		}
+		time.Sleep(200 * time.Microsecond)
+	}
 	w.mu.Lock()
 	inv := w.LN.Invoices[payreq]
 	var pre string
